@@ -206,31 +206,49 @@ def body_one_field(case):
     plain = dict(case, tweaks=[] if v_plain is None else [[path, v_plain]])
     other = dict(case, tweaks=[[path, v_other]])
     first, second = (other, plain) if case["order"] == 0 else (plain, other)
+    # both sides run in fresh interpreters: the pair (A', A) in one, A alone in another - whatever earlier cases left in
+    # THIS worker process cannot mask (or fake) a dependence of A on A'
     ctx = mp.get_context("spawn")
-    q = ctx.Queue()
-    pr = ctx.Process(target=_child_run, args=(second, q))  # the truth: the second configuration on its own
-    pr.start()
+    q1, q2 = ctx.Queue(), ctx.Queue()
+    p1 = ctx.Process(target=_child_sequence, args=([first, second], q1))
+    p2 = ctx.Process(target=_child_sequence, args=([second], q2))
+    p1.start()
+    p2.start()
     try:
-        with cut("compute() [earlier run, one field different]"):
-            run(first)
-        with cut("compute() [run under test]"):
-            _, tab = run(second)
-        got = q.get(timeout=900)
+        seq = q1.get(timeout=1800)
+        alone = q2.get(timeout=1800)
     finally:
-        pr.join(60)
-        if pr.is_alive():
-            pr.kill()
-    if isinstance(got, str):
-        raise HarnessError("fresh-interpreter run failed: " + got)
-    mine = digest(tab)
+        for pr in (p1, p2):
+            pr.join(60)
+            if pr.is_alive():
+                pr.kill()
+    for got in (seq, alone):
+        if isinstance(got, str):
+            raise HarnessError("fresh-interpreter run failed: " + got)
+    mine, got = seq[0], alone[0]
     diff = [k for k in mine if got.get(k) != mine[k]] + [k for k in got if k not in mine]
-    require(not diff, f"a seeded run differs from the same run in a fresh interpreter in {diff[:6]}; this process had before run the same configuration except {'.'.join(path)} = {(v_other if case['order'] == 1 else v_plain)!r} instead of {(v_plain if case['order'] == 1 else v_other)!r}")
+    require(not diff, f"a seeded run differs from the same run in a fresh interpreter in {diff[:6]}; its process had before run the same configuration except {'.'.join(path)} = {(v_other if case['order'] == 0 else v_plain)!r} instead of {(v_plain if case['order'] == 0 else v_other)!r}")
+    n_rows, radio_on = seq[1], seq[2]
     labels = {".".join(path[-2:])}
-    if len(tab) > 0:
+    if n_rows > 0:
         labels.add("survivors")
-    if "EFields" in tab.colnames and np.any(np.asarray(tab["EFields"]) != 0.0):
+    if radio_on:
         labels.add("non_zero_radio_fields")
     return labels
+
+
+def _child_sequence(cases, q):
+    """Runs the configurations one after the other in THIS fresh interpreter; reports the digest of the last run."""
+    try:
+        from nssverif import core
+
+        core.prepare_environment()
+        tab = None
+        for c in cases:
+            _, tab = run(c)
+        q.put((digest(tab), len(tab), bool("EFields" in tab.colnames and np.any(np.asarray(tab["EFields"]) != 0.0))))
+    except BaseException as e:  # noqa: BLE001
+        q.put(f"{type(e).__name__}: {e}")
 
 
 def body_schedulers(case):
